@@ -74,7 +74,7 @@ class GnssUBlox(UbxServerBase_):
 
             cmd = self.cmd_header + msg_in_ascii
             if logger.isEnabledFor(logging.DEBUG):
-                logger.debug(f'sending control message {cmd}')
+                logger.debug(f'sending control message {cmd!r}')
 
             self.control_sock.sendall(cmd)
 
